@@ -74,7 +74,8 @@ instantiated here with the facts the model takes as inputs:
   `opath.len()`, `DerivationPath::master()`    the length, 0
   `tx.base_size()`                             `Req.baseSize`
   `is_tx_non_malleable(tx, segwit_flags)`      the generated `Gen.FnTxUtilC08.is_tx_non_malleable` on `Req.nInputs` inputs
-  `ChannelSlot::Ready(chan)`                   every found slot is Ready (the `_ => panic!` arm is not modelled)
+  `ChannelSlot::Ready(chan)`                   the generated enum `ChannelSlot` (Stub | Ready); the model only has Ready slots
+                                               (a Stub slot reaches the `_ => panic!("this can't happen")` arm of the generated text)
   the channel's p2wsh funding script           equal to the output's script iff `ChanFacts.scriptMatch`
 -/
 
@@ -121,7 +122,9 @@ def toChan (o : Out) (c : ChanFacts) : Gen.FnOnchainTx.Channel Out :=
 def toTx (r : Req) : Gen.FnOnchainTx.Transaction Out :=
   { version := (r.version : Int), output := r.outs.map (fun o => { value := o.value, script_pubkey := o }) }
 
-def channelsOf (r : Req) : List (Option (Gen.FnOnchainTx.Channel Out)) := r.outs.map (fun o => o.chan.map (toChan o))
+def channelsOf (r : Req) : List (Option (Gen.FnOnchainTx.ChannelSlot Out)) :=
+  r.outs.map (fun o => o.chan.map (fun c => .Ready (toChan o c)))
+
 
 def nonMalleableE (r : Req) : Gen.FnOnchainTx.Transaction Out → List Bool → Rs.M Bool :=
   fun _ flags => Gen.FnTxUtilC08.is_tx_non_malleable { input := List.replicate r.nInputs () } flags
@@ -351,7 +354,7 @@ theorem tail_eq (p : Policy) (r : Req) (w : Nat) (L : LoopRes) :
     (version, size, inputs, segwit flags, outputs with their wallet / allowlist / channel facts) and weight -/
 theorem C08_fn_validate_onchain_tx (p : Policy) (r : Req) (w : Nat) (opaths : List Nat) (hop : OpathsOf r opaths) :
     Gen.FnOnchainTx.SimpleValidator.validate_onchain_tx (filtP p.flt) (fun _ => r.baseSize) (nonMalleableE r) id canSpendE allowE 0
-        some (fun keys _ => keys) (toVTx p) () (channelsOf r) (toTx r) r.segwit r.inValues opaths w
+        (fun keys _ => keys) (toVTx p) () (channelsOf r) (toTx r) r.segwit r.inValues opaths w
       = enc (validateOnchain p r w) := by
   obtain ⟨hlen, hop⟩ := hop
   unfold Gen.FnOnchainTx.SimpleValidator.validate_onchain_tx
@@ -361,7 +364,7 @@ theorem C08_fn_validate_onchain_tx (p : Policy) (r : Req) (w : Nat) (opaths : Li
   case hf =>
     intro ⟨bs, unk⟩ k o hk
     have h_out : (toTx r).output[k]? = some { value := o.value, script_pubkey := o } := by simp [toTx, hk]
-    have h_ch : (channelsOf r)[k]? = some (o.chan.map (toChan o)) := by simp [channelsOf, hk]
+    have h_ch : (channelsOf r)[k]? = some (o.chan.map (fun c => .Ready (toChan o c))) := by simp [channelsOf, hk]
     simp only [Rs.index, h_out, h_ch, Rs.pure_eq, Rs.bind_ok]
     unfold stepM
     by_cases hn : r.nOpaths ≤ k
